@@ -5,3 +5,4 @@ pub mod encode;
 pub mod gen;
 pub mod model;
 pub mod project;
+pub mod rename;
